@@ -1,6 +1,7 @@
 import Tahoe.Base.DrvUtil
 import Tahoe.StorageClient.Model
 import Tahoe.GridManager.DrvParse
+import Tahoe.StorageClient.Permute
 /-! Driver for C32.
 
     psi  <preferred> <forUpload> <server>…        → ids of get_servers_for_psi, comma-separated (`-` if none)
@@ -12,6 +13,9 @@ import Tahoe.GridManager.DrvParse
                    iteration order of the frozenset of connected servers, for `goal` in
                    `full_serverlist` order (hash unused there: `0`)
   goal             `-` or comma-separated `<server id>.<shnum>`
+
+    psib <preferred> <forUpload> <storage index hex> <id>:<connected>:<permitted>:<permutation seed hex>…
+         → as `psi`, the SHA-1 of storage index + seed computed by the model (`getServersForPsiBytes`)
 
     hist <keys> <preferred> <forUpload> <time> S <id> <connected> <sha1> <cert|U>… S …
          → ids of get_servers_for_psi at that time after the announcements `S …` in order of arrival
@@ -35,7 +39,18 @@ def parsePairs (t : String) : Option (List (Nat × Nat)) :=
     | [a, b] => do pure (← a.toNat?, ← b.toNat?)
     | _ => none)
 
+def parseRaw (t : String) : Option RawServer :=
+  match t.splitOn ":" with
+  | [i, c, p, h] => do pure ⟨← i.toNat?, ← parseBool c, ← parseBool p, ← bytesOfHex h⟩
+  | _ => none
+
 def handle : List String → String
+  | "psib" :: prefT :: fuT :: psiT :: srvs =>
+    match parseNatList prefT, parseBool fuT, bytesOfHex psiT, srvs.mapM parseRaw with
+    | some pref, some fu, some psi, some l =>
+      let out := (getServersForPsiBytes pref fu psi l).map (fun s => toString s.id)
+      if out.isEmpty then "-" else ",".intercalate out
+    | _, _, _, _ => "bad-op"
   | "hist" :: rest => Tahoe.GMDrv.handleServers true rest
   | "psi" :: prefT :: fuT :: srvs =>
     match parseNatList prefT, parseBool fuT, srvs.mapM parseServer with
